@@ -234,6 +234,14 @@ pub fn gen(tier: &str, seed: u64, out: &mut dyn FnMut(Value)) {
             DynEvent { source: "s".into(), id: 1, fields: vec![(vec!["axis".into()], fv("2")), (vec!["ax".into()], fv("1")), (vec!["is".into()], fv("2")), (vec!["this".into()], fv("1")), (vec!["th".into()], fv("2")), (vec!["r".into()], fv("1")), (vec!["d".into(), "is".into()], fv("2"))] },
         ];
         let evj: Vec<Value> = events.iter().map(event_to_json).collect();
+        // a path compared with itself looks the path up all the same
+        for p in [vec!["axis"], vec!["nope"], vec!["d", "nope"], vec!["nope", "a b"], vec!["r", "sub"]] {
+            for is in [false, true] {
+                let segs: Vec<String> = p.iter().map(|s| s.to_string()).collect();
+                let r = SRule { name: "r".into(), ops: vec![("$a".into(), Operand::Indirect { a: segs.clone(), b: segs, is })], cond: Some(Form::V("$a".into())), ..Default::default() };
+                out(json!({"op": "scenario", "rules": [r.to_json(&mut rng)], "events": evj, "tag": "a path compared with itself", "nt": true}));
+            }
+        }
         for _ in 0..60 {
             for a in [vec!["axis"], vec!["is"], vec!["this"], vec!["d", "is"]] {
                 for is in [false, true] {
